@@ -525,7 +525,7 @@ func ruleC04SetMax(cx *Ctx) {
 	maxF := cx.P.Field("", "policy", "maximum")
 	stored := false
 	allInstrs(sms, func(in ssa.Instruction) {
-		if st, ok := in.(*ssa.Store); ok && sameField(fieldOf(st.Addr), maxF) && st.Val == ssa.Value(sms.Params[1]) {
+		if st, ok := in.(*ssa.Store); ok && sameField(fieldOf(st.Addr), maxF) && st.Val == ssa.Value(bparam(sms, 1)) {
 			stored = true
 		}
 	})
